@@ -389,7 +389,9 @@ class ConditionLike:
             if spec_key_split_len == 3:
                 try:
                     pre_proc_str = spec_key_split[1]
-                    pre_proc_str = PRE_PROC_LOOKUP.get(pre_proc_str, pre_proc_str)
+                    if pre_proc_str not in PRE_PROC_LOOKUP:
+                        raise AttributeError(pre_proc_str)
+                    pre_proc_str = PRE_PROC_LOOKUP[pre_proc_str]
                     if pre_proc_str == "dtype":
                         try:
                             # convert strings to types
